@@ -176,7 +176,7 @@ prop(
 
 prop(
     'C08',
-    ['T3', 'T4', 'R6', 'R7', 'D5', 'X3b', 'X1', 'X2', 'T6'],
+    ['T3', 'T4', 'R6', 'R7', 'R8', 'R9', 'R10', 'R11', 'R12', 'D5', 'X3b', 'X1', 'X2', 'T6'],
     explanation=(
         'The table-driven parts of the simplifier and its local identities: T3 commutative/associative flags equal the mathematical ground truth '
         '(used by _pre_simplify_binop to commute/re-associate), T4 INVERSE_OPERATORS is the mirror involution (used to flip '
@@ -190,9 +190,23 @@ prop(
         '(operands the guards do not inspect are free; literal / division / negation structure, a == b, _obvious_negatives, '
         '_obviously_different and calls of other simplifier functions are interpreted) and checked in a finite model '
         '(numbers -2..2 and 1/2, truth values): in every assignment that satisfies the guards and defines the input, '
-        'the output denotes the same value. NOT decided: the duplicate-elimination tails of conjunction / disjunction, '
-        'constant folding of function calls (sum, prod, min, max, ...), the helper contracts themselves, values outside '
-        'the model (NaN, infinities, float rounding).'
+        'the output denotes the same value. R8: the constant folding of len / sum / prod / max / min over a range with '
+        'literal bounds, read the same way (the folded value as an arithmetic term over the bounds and exclusion flags, '
+        'accumulator loops replayed) on all 196 ranges with integer bounds -3..3: the constant is the number / sum / '
+        'product / largest / smallest of the integers the range contains, empty and reversed ranges included. '
+        'R9: the len / sum / prod folds over set literals count .values once each, so a simplified set must hold '
+        'pairwise distinct elements: every set rebuilt by _simplify comes from set(simplified elements) or after the '
+        'len(set(..)) == len(..) test (or the folds remove duplicates themselves). R10: every fold returns a literal '
+        'of the declared result type of the function (by the HplLiteral factory used), the call itself or a rebuilt '
+        'expression; an argument is handed back unchanged only where its HPL type is established (a Python '
+        'isinstance(value, int) does not: bool is an int). R11: the contracts that R7 assumes of the shortcut predicates are '
+        'checked the same way - on every path where _obviously_different(a, b) answers True (shape tests read as structure, '
+        'a.operand1 == b as equal denotations, asserted literal values as constraints) the two expressions differ in every '
+        'assignment of the model, and where _obvious_negatives answers True one is the negation of the other. R12: no '
+        'assertion that a first operand is not a literal outside commutative operators. '
+        'NOT decided: the duplicate-elimination tails of conjunction / disjunction, constant folding over sets and of the '
+        'other functions, non-integer bounds, the helper contracts themselves, values outside the model (NaN, infinities, '
+        'float rounding).'
     ),
 )
 
@@ -225,7 +239,7 @@ prop(
 
 prop(
     'C14',
-    ['X1', 'X2', 'X3b', 'X3c', 'X10', 'S3', 'R2', 'T2', 'X5r', 'T4'],
+    ['X1', 'X2', 'X3b', 'X3c', 'X10', 'R10', 'R12', 'S3', 'R2', 'T2', 'X5r', 'T4'],
     explanation=(
         'X1 definite assignment over all 614 functions; X2 call.arguments[k] vs the smallest overload of the function the '
         'branch dispatches on; X3b explicit raises of rewrite.py are the documented ones; X5r assert census of everything '
@@ -233,7 +247,9 @@ prop(
         'class with semantic validators (sanity, presence, hygiene: derived from the raise classes of its validators) either '
         'leaves the fields those validators read untouched or is justified by a checked fact (alternative of the same '
         'field; same variable/domain and a body part that mentions the variable); S3 the contains_reference queries that the '
-        'shape assertions rely on cover every slot. Not decided: TypeError from re-validation of operand types (assumed), '
+        'shape assertions rely on cover every slot; R10 a function fold yields a literal of the declared result type, the '
+        'call, a rebuilt expression, or an argument whose HPL type is established (expression in, expression of the same '
+        'type out; a wrongly typed fold makes the rebuilt parent raise); R12 the simplifier does not assert the literal-last normal form for non-commutative operators (`(1 - x) = 1` raised AssertionError). Not decided: TypeError from re-validation of operand types (assumed), '
         'the remaining shape assertions.'
     ),
 )
